@@ -300,3 +300,7 @@ def run(repo, rep):
     rep.check(vals == ['__main__', 'builtins'], 'C08.d', 'implicit-modules', m.relpath, 'only builtins and __main__ are elided',
               'IMPLICIT_MODULES is %s' % vals, nontrivial=True)
     rep.floor('C08.d', n, 4)
+    # C08.e: an instance of a subclass of an atomic built-in type that occurs several times in a value (an IntEnum member) is printed
+    # by its own printer every time - the visited bookkeeping treats it like any other value (interpreted wrapper model)
+    from . import wrapper_model
+    rep.floor('C08.e', wrapper_model.run(repo, rep, 'C08'), 1)
